@@ -21,7 +21,7 @@ MCInit ==
 
 UT == UNCHANGED <<table, embed, thalgs>>
 AFromPrivate == (FromPrivate \/ FromGenerated) /\ UT
-AFromRaw == (FromRaw \/ FromRawH) /\ UT
+AFromRaw == (FromRaw \/ FromRawH \/ FromRawE) /\ UT
 AFromSpki == (FromSpki \/ FromSpkiOtherScheme) /\ UT
 AFromPem == FromPem /\ UT
 AViaJson == (ViaJson \/ ViaJsonTxt) /\ UT
